@@ -503,18 +503,49 @@ def c11_cache_flush_rule(ctx):
           "every path of the closure; class, now, created, expires: full width; get_class/get_type/get_created/get_expire are pure accessors of the record they are called on",
           ["clock < 2^62", "accessors of a boxed record are pure", "RRType comparison and the DnsAddress downcast are opaque (both outcomes explored)"])
     cands = [n for n in ctx.funcs if n.endswith("::add_or_update::{closure#0}")]
-    if len(cands) != 1:
-        q.unknown.append(f"flush closure: {len(cands)} candidates")
-        return q.result()
-    f = ctx.funcs[cands[0]]
     env, rec = ("env", 0), ("cached", 0)
     cls, now = z3.BitVec("incoming_class", 16), z3.BitVec("now", 64)
-    objs = {env: {(0, "*"): BV(cls, 16), (2, "*"): BV(now, 64)}, rec: {}}
-    # captured references: (*_1).0: &u16 -> deref gives the class; model the reference cells directly
-    objs[env][(0,)] = Ref(env, (0, "*"))
-    objs[env][(2,)] = Ref(env, (2, "*"))
-    ex = Explorer(ctx.funcs, ctx.consts, pure_accessors={"get_class", "get_type", "get_created", "get_expire"}, max_paths=400)
-    paths = ex.explore(f.name, args=[Ref(env, ()), Ref(rec, ())], objs=objs, assumptions=[z3.ULT(now, TWO62)])
+    loop_form = False
+    if len(cands) == 1 and "IterMut" not in " ".join(t for _, t in ctx.funcs[cands[0][:-len("::{closure#0}")]].blocks.values() if "::next(" in t):
+        f = ctx.funcs[cands[0]]
+        objs = {env: {(0, "*"): BV(cls, 16), (2, "*"): BV(now, 64)}, rec: {}}
+        # captured references: (*_1).0: &u16 -> deref gives the class; model the reference cells directly
+        objs[env][(0,)] = Ref(env, (0, "*"))
+        objs[env][(2,)] = Ref(env, (2, "*"))
+        ex = Explorer(ctx.funcs, ctx.consts, pure_accessors={"get_class", "get_type", "get_created", "get_expire"}, max_paths=400)
+        paths = ex.explore(f.name, args=[Ref(env, ()), Ref(rec, ())], objs=objs, assumptions=[z3.ULT(now, TWO62)])
+    else:
+        # the same rule written as a `for r in record_vec.iter_mut()` loop in add_or_update itself:
+        # one pass of the loop body for an arbitrary cached record (window from the Some arm of next() back to next())
+        owner = [n for n in ctx.funcs if n.endswith("::add_or_update")]
+        f = ctx.funcs[owner[0]] if len(owner) == 1 else None
+        nxt = None
+        if f is not None:
+            for b, (stmts, term) in f.blocks.items():
+                m = re.match(r"(_\d+) = <std::slice::IterMut<'_, DnsRecordIntf> as Iterator>::next\(", term)
+                if m:
+                    nxt = m.group(1)
+                    break
+        start = None
+        if nxt:
+            for b, (stmts, term) in f.blocks.items():
+                if any(re.search(r"= move \(\(%s as Some\)\.0" % nxt, x) for x in stmts):
+                    start = b
+                    break
+        cl, nl = (f.debug.get("class"), f.debug.get("now")) if f is not None else (None, None)
+        if not (start and cl and nl and re.fullmatch(r"_\d+", cl) and re.fullmatch(r"_\d+", nl)):
+            q.unknown.append(f"cache-flush rule not found: {len(cands)} closure candidates and no `for r in ..iter_mut()` loop over the cached records in add_or_update")
+            return q.result()
+        loop_form = True
+        q.functions[0] = "DnsCache::add_or_update (window: one pass of the cache-flush loop over the cached records)"
+        q.assumptions.append("window slice: one loop pass from an arbitrary state, `class` and `now` as bound before the loop")
+        ex = Explorer(ctx.funcs, ctx.consts, pure_accessors={"get_class", "get_type", "get_created", "get_expire"}, max_paths=400,
+                      stop_calls=("as Iterator>::next",))
+        paths = ex.explore(f.name, start_block=start, objs={rec: {}},
+                           locals_={nxt: Adt("Some", [Ref(rec, ())]), cl: BV(cls, 16), nl: BV(now, 64)}, assumptions=[z3.ULT(now, TWO62)])
+        for p in paths:
+            if p.outcome.startswith("stop:"):
+                p.events = [e for e in p.events if not (e[0] == "call" and e[1].endswith("as Iterator>::next"))]
     if ex.unknown_constructs:
         q.notes.append("unmodelled: " + "; ".join(sorted(set(ex.unknown_constructs))[:4]))
     flushed = 0
@@ -524,7 +555,9 @@ def c11_cache_flush_rule(ctx):
             pre = p.cond + [z3.ULT(c.e, TWO62) for c in created]
             q.unsat(pre, "flush rule panics: " + p.outcome[6:40])
             continue
-        if p.outcome != "return":
+        if not (p.outcome == "return" and not loop_form or p.outcome.startswith("stop:") and loop_form):
+            if loop_form and p.outcome == "return":
+                q.unknown.append(f"path {i} leaves the loop body: {p.outcome[:60]}")
             continue
         calls = [e for e in p.events if e[0] == "call"]
         se = [e for e in calls if e[1].split("::")[-1] == "set_expire"]
@@ -1280,13 +1313,15 @@ def c16_decode_txt_step(ctx):
     paths = ex.explore(f.name, args=[Ref(txt, (), mutable=False)], start_block=head, locals_={off_local: BV(off, 64)}, objs={txt: {}})
     if ex.unknown_constructs:
         q.notes.append("unmodelled: " + "; ".join(sorted(set(ex.unknown_constructs))[:4]))
-    n_back, n_exit = 0, 0
+    n_back, n_exit, inline_split = 0, 0, 0
     for i, p in enumerate(paths):
         ln = p.acc.get(("len", txt, ()))
         if ln is None:
             q.unknown.append(f"path {i}: the record length is never consulted")
             continue
         inv = [z3.ULE(off, ln.e), z3.ULT(ln.e, TWO62)]
+        pos = [e[2] for e in p.events if e[0] == "position"]
+        inv += [z3.ULT(x.e, TWO62) for x in pos]   # position()'s contract: an index into a slice
         if p.outcome.startswith("panic"):
             q.unsat(inv + p.cond, f"decode_txt panics ({p.outcome[6:46]})")
             continue
@@ -1296,6 +1331,13 @@ def c16_decode_txt_step(ctx):
                 if isinstance(rng, Adt) and "Range" in rng.name and len(rng.items) == 2:
                     a, b = rng.items
                     q.valid(inv + p.cond, z3.And(z3.ULE(a.e, b.e), z3.ULE(b.e, ln.e)), f"path {i}: the slice taken for one string lies inside the record", a.taint or b.taint)
+                elif isinstance(rng, Adt) and len(pos) == 1 and len(rng.items) == 1 and ("RangeTo" in rng.name or "RangeFrom" in rng.name):
+                    # key/value split written in decode_txt itself (no map_or_else closure)
+                    inline_split += 1
+                    if "RangeTo" in rng.name:
+                        q.valid(inv + p.cond, rng.items[0].e == pos[0].e, "key = bytes before the first '='", rng.items[0].taint)
+                    else:
+                        q.valid(inv + p.cond, rng.items[0].e == pos[0].e + 1, "value = bytes after the first '=' (the '=' itself dropped)", rng.items[0].taint)
                 else:
                     q.unknown.append(f"path {i}: slice range not resolved")
         if p.outcome.startswith("cut:loop"):
@@ -1330,8 +1372,8 @@ def c16_decode_txt_step(ctx):
                         q.valid(p.cond, r.items[0].e == idx, "key = bytes before the first '='", r.items[0].taint)
                     elif "RangeFrom" in r.name:
                         q.valid(p.cond + [z3.ULT(idx, TWO62)], r.items[0].e == idx + 1, "value = bytes after the first '=' (the '=' itself dropped)", r.items[0].taint)
-    else:
-        q.unknown.append("key/value split closure not found")
+    elif inline_split < 2:
+        q.unknown.append("key/value split not found (neither the map_or_else closure nor a match on position() in decode_txt)")
     return q.result()
 
 
